@@ -16,6 +16,21 @@ def popOps : List SrcOp :=
 def lenOps : List SrcOp :=
   [.loadLen]
 
+/-- control skeleton of `Push`: loops, branches, returns, calls of anything that is not a
+sync/atomic operation, `runtime.Gosched` or a conversion -/
+def pushCtl : List SrcOp :=
+  [.loop, .cond "if", .ret]
+
+/-- control skeleton of `Pop`: loops, branches, returns, calls of anything that is not a
+sync/atomic operation, `runtime.Gosched` or a conversion -/
+def popCtl : List SrcOp :=
+  [.cond "if", .ret, .cond "if", .ret, .ret]
+
+/-- control skeleton of `Len`: loops, branches, returns, calls of anything that is not a
+sync/atomic operation, `runtime.Gosched` or a conversion -/
+def lenCtl : List SrcOp :=
+  [.ret]
+
 /-- control skeleton of `PopWait` in source order: tests of the duration parameter, loops,
 calls of `Pop`, `runtime.Gosched`, returns, the ticker -/
 def popWaitOps : List SrcOp :=
